@@ -72,6 +72,19 @@ def stepArgs (w : World) (op : String) (a : Args) : World × String :=
         match apiUpdate m (a.getD "op" "replace") pix vals single with
         | .ok m' => (w.put n m', "ok")
         | .error e => (w.put n { m with cache := none }, errLine e)
+  | "updr" => withMap w a fun m =>
+    let n := a.pos.headD ""
+    match parseRanges (a.getD "ranges" "_") with
+    | none => (w, "bad-op:ranges")
+    | some R =>
+      let v? : Option (Option Val) :=
+        if a.flag "none" then some none else ((a.get? "val").bind parseVal).map some
+      match v? with
+      | none => (w, "bad-op:val")
+      | some v =>
+        match apiUpdateRanges m (a.getD "op" "replace") R v (a.getD "path" "slice" == "slice") with
+        | .ok m' => (w.put n m', "ok")
+        | .error e => (w.put n { m with cache := none }, errLine e)
   | "vals" => withMap w a fun m => (w, showVals ((List.range m.npix).map m.abs))
   | "get" => withMap w a fun m =>
     let pix? : Option (List Nat) :=
